@@ -142,8 +142,22 @@ pub fn corpus(quick: bool) -> Vec<Gen> {
                     two.push(format!("({x} ~ {y})+"));
                 }
             }
+            // a progressing head followed by a repetition whose body may or may not progress
+            for body in ["\"\"", "!\"b\"", "&\"a\"", "\"a\"?", "SOI", "\"b\"", "ANY", "s?"] {
+                for rep in ["*", "+", "{1,}", "{2}", "?"] {
+                    two.push(format!("\"a\" ~ ({body}){rep}"));
+                    two.push(format!("\"a\" ~ ({body}){rep} ~ \"b\""));
+                    two.push(format!("(\"a\" | \"b\" ~ ({body}){rep})"));
+                }
+            }
             for b in small.iter().chain(two.iter()) {
                 out.push(Gen { text: format!("{special} = {m}{{ {b} }} s = {{ \"b\" }} r = {{ \"a\" ~ \"b\" ~ (\"a\")* }}"), class: "special-body" });
+            }
+            // both specials defined, in either order: each must be validated on its own
+            let other = if special == "WHITESPACE" { "COMMENT" } else { "WHITESPACE" };
+            for b in small.iter() {
+                out.push(Gen { text: format!("{other} = _{{ \"b\" }} {special} = {m}{{ {b} }} r = {{ \"a\" ~ \"a\" }}"), class: "special-body" });
+                out.push(Gen { text: format!("{special} = {m}{{ {b} }} {other} = _{{ \"b\" }} r = {{ \"a\" ~ \"a\" }}"), class: "special-body" });
             }
         }
         // specials that reference themselves / each other / the start rule
